@@ -309,7 +309,7 @@ static Verdict run_fire(const FireCase &c) {
       break;
     case E_PEER_WRITE: if (c.kind[ch] == 1 || c.kind[ch] == 2) { if (!m[ch].eof) m[ch].pending++; } break;
     case E_DRAIN: if (c.kind[ch] == 1 || c.kind[ch] == 2) m[ch].pending = 0; break;
-    case E_PEER_CLOSE: if (c.kind[ch] == 1 || c.kind[ch] == 2) m[ch].eof = true; break;
+    case E_PEER_CLOSE: if (c.kind[ch] == 1 || c.kind[ch] == 2 || c.kind[ch] == 4) m[ch].eof = true; break;  // kind 4: the pipe's reader is gone (error condition)
     case E_PEER_SHUT_WR: if (c.kind[ch] == 1) m[ch].eof = true; break;  // half close: the read side sees end of stream
     case E_REOPEN:  // descriptor closed without a delete and reused: the kernel forgot the registration, the user record did not
       if (c.kind[ch] == 1 || c.kind[ch] == 2) { m[ch].reg = false; m[ch].enabled = false; m[ch].pending = 0; m[ch].eof = false; }
@@ -319,7 +319,7 @@ static Verdict run_fire(const FireCase &c) {
     uint8_t wait = 0;
     for (int j = 0; j < C06_MAX_CH; j++) {
       if (c.kind[j] == 0) continue;
-      bool cond = c.kind[j] == 1 ? (m[j].pending > 0 || m[j].eof) : c.kind[j] == 2 ? true : true /* timer: elapses */;
+      bool cond = c.kind[j] == 1 ? (m[j].pending > 0 || m[j].eof) : true /* write ends are writable (or in error), timers elapse */;
       bool active = m[j].reg && m[j].enabled && cond;
       if (!active) { ex[i][j] = EX_SILENT; continue; }
       if (m[j].flags & F_ONESHOT) { ex[i][j] = EX_EXACTLY_ONE; m[j].reg = false; m[j].enabled = false; wait |= (1 << j); }
@@ -353,7 +353,7 @@ static Verdict run_fire(const FireCase &c) {
       const Cmd &cm = c.cmds[i];
       const c06b_step &s = o.s[i];
       int chx = cm.ch % C06_MAX_CH;
-      if (cm.cmd == E_PEER_CLOSE && (c.kind[chx] == 1 || c.kind[chx] == 2)) eofm[chx].eof = true;
+      if (cm.cmd == E_PEER_CLOSE && (c.kind[chx] == 1 || c.kind[chx] == 2 || c.kind[chx] == 4)) eofm[chx].eof = true;
       if (cm.cmd == E_PEER_SHUT_WR && c.kind[chx] == 1) { eofm[chx].eof = true; label("half_close"); }
       if (cm.cmd == E_REOPEN && (c.kind[chx] == 1 || c.kind[chx] == 2)) { eofm[chx].eof = false; label("descriptor_reused_with_stale_record"); }
       for (int j = 0; j < C06_MAX_CH; j++) {
@@ -388,7 +388,12 @@ static Verdict run_fire(const FireCase &c) {
           break;
         default: break;
         }
-        if (eofm[j].eof && s.fired_late[j] > prev[j]) {
+        if (c.kind[j] == 4 && eofm[j].eof && s.fired_late[j] > prev[j]) {
+          // write end of a pipe whose reader is gone: the kernel reports an error condition (EPOLLERR), not a hang-up
+          PBT_REQUIRE((s.last_flags[j] & F_ERROR) && s.last_fflags[j] != 0, tag << ": fired after the pipe's reader closed without TP_F_ERROR / an error code (flags " << std::hex << s.last_flags[j] << " fflags " << std::dec << s.last_fflags[j] << ")");
+          label("error_flag_seen_on_pipe");
+          nt = true;
+        } else if (eofm[j].eof && s.fired_late[j] > prev[j]) {
           PBT_REQUIRE(s.last_flags[j] & F_EOF, tag << ": fired after the peer closed without TP_F_EOF (flags " << std::hex << s.last_flags[j] << ")");
           saw_eof = true;
         }
@@ -413,7 +418,7 @@ static rc::Gen<FireCase> genFire() {
     FireCase c;
     int nch = *range<int>(1, 3);
     for (int i = 0; i < nch; i++) {
-      c.kind[i] = *rc::gen::weightedElement<int>({{4, 1}, {2, 2}, {3, 3}});
+      c.kind[i] = *rc::gen::weightedElement<int>({{4, 1}, {2, 2}, {3, 3}, {1, 4}});
       c.period[i] = *range<int>(1, 12);
     }
     int n = *range<int>(2, 14);
@@ -421,7 +426,8 @@ static rc::Gen<FireCase> genFire() {
       Cmd cm;
       cm.ch = *range<int>(0, nch - 1);
       int kd = c.kind[cm.ch];
-      cm.cmd = (kd == 3) ? *rc::gen::weightedElement<int>({{4, E_ADD}, {2, E_ENABLE}, {3, E_DISABLE}, {2, E_DEL}, {2, E_SLEEP}})
+      if (kd == 4) { cm.cmd = *rc::gen::weightedElement<int>({{4, E_ADD}, {2, E_ENABLE}, {2, E_DISABLE}, {2, E_DEL}, {3, E_PEER_CLOSE}, {1, E_SLEEP}}); }
+      else cm.cmd = (kd == 3) ? *rc::gen::weightedElement<int>({{4, E_ADD}, {2, E_ENABLE}, {3, E_DISABLE}, {2, E_DEL}, {2, E_SLEEP}})
                          : *rc::gen::weightedElement<int>({{4, E_ADD}, {2, E_ENABLE}, {3, E_DISABLE}, {2, E_DEL}, {4, E_PEER_WRITE}, {2, E_DRAIN}, {1, E_PEER_CLOSE}, {1, E_PEER_SHUT_WR}, {1, E_SLEEP}, {1, E_REOPEN}});
       cm.outside = *rc::gen::weightedElement<int>({{3, 0}, {1, 1}});
       cm.flags = *rc::gen::weightedElement<int>({{3, 0}, {2, F_ONESHOT}, {2, F_DISPATCH}});
